@@ -32,11 +32,26 @@
 (*  kind "lm"   : sums of squares with known (rational) stationary points.  *)
 (*  kind "wrap" : SciPy wrappers as a relation: objective handed to SciPy = *)
 (*                sign * f (sign = -1 for maximize), result returned        *)
-(*                unchanged, info = renaming of SciPy's result fields.      *)
+(*                unchanged, info = renaming of SciPy's result fields;      *)
+(*                objectives: separable quadratics and the non-quadratic    *)
+(*                "para" family (minimum (a, a^2)); every wrapper with the  *)
+(*                documented keyword arguments of its SciPy target          *)
+(*                (tables LbfgsOpts / MinOpts / LsOpts), default and not.   *)
+(*  kind "seq"  : ONE solver object and a SEQUENCE of public operations:    *)
+(*                the actions Solve and SetOp (reassign one public operand: *)
+(*                A, b, x0, shift, maxit, tol, proximal, stepsize, func,    *)
+(*                gradfunc, method, kwargs ...).  The object may keep       *)
+(*                derived data between calls (cache = back-projected data   *)
+(*                A^T b); every SetOp of an operand the cache depends on    *)
+(*                clears it.  Invariants: the end point expected from a     *)
+(*                Solve depends only on the operands the object holds at    *)
+(*                that moment (SeqCurrentOperands) and satisfies their      *)
+(*                optimality system (SeqOptimality).                        *)
 (*                                                                         *)
 (* Named deviations (off in the deciding configurations):                  *)
-(*   PcglsIgnoresShift : PCGLS drops the shift from s and delta             *)
-(*   MaximizeDropsSign : maximize hands f itself to SciPy                   *)
+(*   PcglsIgnoresShift  : PCGLS drops the shift from s and delta            *)
+(*   MaximizeDropsSign  : maximize hands f itself to SciPy                  *)
+(*   StaleCachedOperand : a reassigned A does not clear the cached A^T b    *)
 (***************************************************************************)
 EXTENDS MatQ, FiniteSets, TLC, Json
 
@@ -47,15 +62,18 @@ CONSTANTS MaxDim,            \* CGLS: all full-rank A in {-1,0,1}^(m x n), m, n 
                              \* 2 (thorough): every b in the box, all 2x2 unimodular matrices over {-1,0,1,2}, and 3x3
           MagBound,          \* cg: a state whose numerators / denominators exceed this is not iterated further (32-bit TLC)
           MagBound3,         \* the same bound for the problems with a dimension equal to 3
-          Kinds,             \* subset of {"cg", "prox", "kkt", "lm", "wrap"}
+          Kinds,             \* subset of {"cg", "prox", "kkt", "lm", "wrap", "seq"}
           Emit,
+          SeqLen,            \* seq: number of operations per behaviour (the last one is a Solve)
+          SeqSets,           \* seq: at most this many reassignments per behaviour
           PcglsIgnoresShift,
-          MaximizeDropsSign
+          MaximizeDropsSign,
+          StaleCachedOperand
 
 VARIABLES pb,     \* the problem (record with field kind)
           ph,     \* "new": problem chosen, nothing computed yet; "run": state initialised
-          it,     \* iteration state of the cg machine (<<>> for the other kinds)
-          hist    \* cg: what the operator was applied to, and the iterates, so far
+          it,     \* iteration state of the cg machine; seq: the operands the object holds and its cache (<<>> otherwise)
+          hist    \* cg: what the operator was applied to, and the iterates, so far; seq: the operations so far
 
 vars == <<pb, ph, it, hist>>
 
@@ -517,9 +535,15 @@ EmitLm ==
 
 (***************************************************************************)
 (* kind "wrap": SciPy wrappers                                             *)
-(*   objective f(x) = sense * 1/2 sum_i a_i (x_i - c_i)^2                  *)
+(*   objectives (record fn = [obj, a, c]; c is always the optimum):        *)
+(*     "quad": f(x) = sense * 1/2 sum_i a_i (x_i - c_i)^2                   *)
+(*     "para": f(x) = sense * 1/2 |(x1 - a1, a2 (x2 - x1^2))|^2   (c = (a1, a1^2); not quadratic: the   *)
+(*             stopping parameters of the algorithms decide where they stop)                          *)
 (*   (sense = 1: to be minimised, -1: to be maximised); the wrapper hands   *)
 (*   Sign * f to SciPy and returns SciPy's x unchanged.                     *)
+(*   The documented keyword arguments go to the SciPy target unchanged      *)
+(*   (L_BFGS_B -> scipy.optimize.fmin_l_bfgs_b, minimize / maximize ->      *)
+(*   scipy.optimize.minimize) or renamed by LsArgMap (LS -> least_squares). *)
 (***************************************************************************)
 WrapSign(w) == IF w = "maximize" /\ ~MaximizeDropsSign THEN -1 ELSE 1
 
@@ -540,23 +564,91 @@ WarnMap == [wf \in 0..2 |->
 \* argument renaming of LS
 LsArgMap == [jac |-> "jacfun", method |-> "method", loss |-> "loss", xtol |-> "tol", max_nfev |-> "maxit"]
 
+\* ---- keyword arguments: values a cfg / a 32-bit integer cannot hold are written m * 10^e ---------------------
+Sci(m, e)     == [t |-> "sci", m |-> m, e |-> e]
+IntV(n)       == [t |-> "int", n |-> n]
+BoxV(lo, up)  == [t |-> "bounds", lo |-> lo, up |-> up]             \* one (lo_i, up_i) per component, rationals
+DictV(items)  == [t |-> "dict", items |-> items]
+StrV(s)       == [t |-> "str", s |-> s]
+Kw(k, v)      == [k |-> k, v |-> v]
+WrapBox == BoxV(<<R(-2), R(-2)>>, <<Half, Half>>)
+
+\* L_BFGS_B(func, x0, gradfunc, **kwargs): kwargs are those of scipy.optimize.fmin_l_bfgs_b
+LbfgsOpts == [ default  |-> <<>>,
+               tight    |-> << Kw("maxiter", IntV(50)), Kw("pgtol", Sci(1, -10)) >>,
+               factr1   |-> << Kw("factr", Sci(1, 1)) >>,
+               factr3   |-> << Kw("factr", Sci(1, 3)) >>,
+               factr12  |-> << Kw("factr", Sci(1, 12)) >>,
+               pgtolm   |-> << Kw("pgtol", Sci(1, -9)), Kw("m", IntV(3)) >>,
+               m1       |-> << Kw("m", IntV(1)) >>,
+               maxiter2 |-> << Kw("maxiter", IntV(2)) >>,
+               maxfun4  |-> << Kw("maxfun", IntV(4)) >>,
+               maxls2   |-> << Kw("maxls", IntV(2)) >>,
+               bounds   |-> << Kw("bounds", WrapBox) >>,
+               epsilon  |-> << Kw("epsilon", Sci(1, -3)) >> ]
+
+\* minimize / maximize(func, x0, gradfunc, method, **kwargs): kwargs are those of scipy.optimize.minimize
+MinOpts == [ default |-> <<>>,
+             tol     |-> << Kw("tol", Sci(1, -10)) >>,
+             maxiter |-> << Kw("options", DictV(<< Kw("maxiter", IntV(3)) >>)) >>,
+             bounds  |-> << Kw("bounds", WrapBox) >> ]
+
+\* LS(func, x0, jacfun, method, loss, tol, maxit): the three last ones (method is a field of the case)
+LsOpts == [ tight   |-> << Kw("loss", StrV("linear")),  Kw("tol", Sci(1, -9)), Kw("maxit", IntV(500)) >>,
+            loose   |-> << Kw("loss", StrV("linear")),  Kw("tol", Sci(1, -3)), Kw("maxit", IntV(500)) >>,
+            few     |-> << Kw("loss", StrV("linear")),  Kw("tol", Sci(1, -9)), Kw("maxit", IntV(3)) >>,
+            soft_l1 |-> << Kw("loss", StrV("soft_l1")), Kw("tol", Sci(1, -9)), Kw("maxit", IntV(500)) >>,
+            huber   |-> << Kw("loss", StrV("huber")),   Kw("tol", Sci(1, -9)), Kw("maxit", IntV(500)) >>,
+            cauchy  |-> << Kw("loss", StrV("cauchy")),  Kw("tol", Sci(1, -9)), Kw("maxit", IntV(500)) >>,
+            arctan  |-> << Kw("loss", StrV("arctan")),  Kw("tol", Sci(1, -9)), Kw("maxit", IntV(500)) >> ]
+
+OptTable(w) == CASE w = "L_BFGS_B" -> LbfgsOpts [] w = "LS" -> LsOpts [] OTHER -> MinOpts
+OptsOf(w)   == DOMAIN OptTable(w)
+BaseOpt(w)  == CASE w = "L_BFGS_B" -> "tight" [] w = "LS" -> "tight" [] OTHER -> "default"
+
 MethodsOf(w) ==
     CASE w \in {"minimize", "maximize"} -> {"default", "Nelder-Mead", "Powell", "CG", "BFGS", "Newton-CG", "L-BFGS-B", "TNC",
                                             "COBYLA", "SLSQP", "trust-constr"}
       [] w = "LS"       -> {"trf", "dogbox", "lm"}
       [] w = "L_BFGS_B" -> {"default"}
 
-WrapCases ==
-    { [kind |-> "wrap", wrapper |-> w, method |-> me, a |-> a, c |-> c, x0 |-> x0, grad |-> gr] :
-        w \in {"minimize", "maximize", "LS", "L_BFGS_B"}, me \in UNION { MethodsOf(v) : v \in {"minimize", "LS", "L_BFGS_B"} },
-        a \in {<<1, 2>>}, c \in {<<1, -2>>, <<0, 3>>}, x0 \in {<<0, 0>>, <<2, 1>>}, gr \in BOOLEAN }
-WrapValid(k) == k.method \in MethodsOf(k.wrapper)
+\* ---- objectives ------------------------------------------------------------------------------------------
+ParaRec(fn) == [fam |-> "para", B |-> <<>>, c |-> <<>>, a |-> fn.a[1], d |-> fn.a[2]]
+WrapObjs == { [obj |-> "quad", a |-> <<1, 2>>, c |-> <<1, -2>>],  [obj |-> "quad", a |-> <<1, 2>>, c |-> <<0, 3>>],
+              [obj |-> "para", a |-> <<-1, 1>>, c |-> <<-1, 1>>], [obj |-> "para", a |-> <<2, 2>>, c |-> <<2, 4>>] }
+ObjF(fn, z) ==
+    IF fn.obj = "quad" THEN QMul(Half, QSumSeq([i \in 1..2 |-> QMul(R(fn.a[i]), QSq(QSub(z[i], R(fn.c[i]))))]))
+    ELSE QMul(Half, QNorm2(LmRes(ParaRec(fn), z)))
+ObjGrad(fn, z) ==
+    IF fn.obj = "quad" THEN [i \in 1..2 |-> QMul(R(fn.a[i]), QSub(z[i], R(fn.c[i])))]
+    ELSE LmGrad(ParaRec(fn), z)
+
+\* which wrapper x method x objective x start x options are emitted (everything with the base options on the
+\* quadratics as before; the other options / the non-quadratic objective on a sub-grid)
+OptMethods  == {"default", "L-BFGS-B", "Nelder-Mead", "SLSQP", "TNC"}
+ParaMethods == {"default", "BFGS", "L-BFGS-B", "Nelder-Mead"}
+WrapValid(k) ==
+    LET w == k.wrapper  base == k.opt = BaseOpt(k.wrapper) IN
+    CASE w \in {"minimize", "maximize"} ->
+              \/ (k.obj = "quad" /\ base)
+              \/ (k.obj = "quad" /\ k.c = <<1, -2>> /\ k.x0 = <<2, 1>> /\ k.method \in OptMethods)
+              \/ (k.obj = "para" /\ k.x0 = <<0, 0>> /\ k.method \in ParaMethods /\ k.opt \in {"default", "tol"})
+      [] w = "LS" ->
+              \/ (k.obj = "quad" /\ (base \/ (k.c = <<1, -2>> /\ k.x0 = <<2, 1>>)))
+              \/ (k.obj = "para" /\ k.x0 = <<0, 0>> /\ k.opt \in {"tight", "loose"})
+      [] w = "L_BFGS_B" -> k.obj = "quad" \/ k.x0 = <<0, 0>>
+
+WrapCasesOf(w) ==
+    { [kind |-> "wrap", wrapper |-> w, method |-> me, obj |-> fn.obj, a |-> fn.a, c |-> fn.c, x0 |-> x0, grad |-> gr, opt |-> op] :
+        me \in MethodsOf(w), fn \in WrapObjs, x0 \in {<<0, 0>>, <<2, 1>>}, gr \in BOOLEAN, op \in OptsOf(w) }
+WrapCases == UNION { {k \in WrapCasesOf(w) : WrapValid(k)} : w \in {"minimize", "maximize", "LS", "L_BFGS_B"} }
 
 Sense(w) == IF w = "maximize" THEN -1 ELSE 1
+FnOf(k) == [obj |-> k.obj, a |-> k.a, c |-> k.c]
 \* value of the user's function and of the function SciPy sees
-UserF(k, z)  == QMul(R(Sense(k.wrapper)), QMul(Half, QSumSeq([i \in 1..2 |-> QMul(R(k.a[i]), QSq(QSub(z[i], R(k.c[i]))))])))
+UserF(k, z)  == QMul(R(Sense(k.wrapper)), ObjF(FnOf(k), z))
 SciPyF(k, z) == QMul(R(WrapSign(k.wrapper)), UserF(k, z))
-SciPyGrad(k, z) == [i \in 1..2 |-> QMul(R(WrapSign(k.wrapper) * Sense(k.wrapper) * k.a[i]), QSub(z[i], R(k.c[i])))]
+SciPyGrad(k, z) == LET g == ObjGrad(FnOf(k), z) IN [i \in 1..2 |-> QMul(R(WrapSign(k.wrapper) * Sense(k.wrapper)), g[i])]
 
 \* what SciPy is asked to minimise has its minimum at the point the user asked for
 WrapRelation ==
@@ -568,8 +660,9 @@ WrapRelation ==
 
 EmitWrap ==
     (Emit /\ Run("wrap")) =>
-        PrintT("@@CASE " \o ToJson([kind |-> "wrap", wrapper |-> pb.wrapper, method |-> pb.method, a |-> pb.a, c |-> pb.c,
-                                    x0 |-> pb.x0, grad |-> pb.grad, sign |-> WrapSign(pb.wrapper), sense |-> Sense(pb.wrapper),
+        PrintT("@@CASE " \o ToJson([kind |-> "wrap", wrapper |-> pb.wrapper, method |-> pb.method, obj |-> pb.obj, a |-> pb.a, c |-> pb.c,
+                                    x0 |-> pb.x0, grad |-> pb.grad, opt |-> pb.opt, kw |-> OptTable(pb.wrapper)[pb.opt],
+                                    sign |-> WrapSign(pb.wrapper), sense |-> Sense(pb.wrapper),
                                     info |-> InfoMap(pb.wrapper),
                                     warn |-> IF pb.wrapper = "L_BFGS_B" THEN [wf \in 1..3 |-> WarnMap[wf - 1]] ELSE <<>>,
                                     args |-> IF pb.wrapper = "LS" THEN LsArgMap ELSE [none |-> "none"]]) \o " @@END")
